@@ -2,16 +2,23 @@
 // Runs the real SyncWAL goroutine against concurrent real WriteCSM calls and queries, and a real
 // Shutdown, touching the shared flags only through marketstore's own code, so that every race report
 // whose two stacks are inside /repo is a race of the implementation:
-//   haveWALWriter     written at executor/wal.go:722,765 (SyncWAL), read at wal.go:788 (RequestFlush)
-//   *shutdownPending  written at wal.go:804 (Shutdown), read at wal.go:730 (SyncWAL)
-// Search only: a report supports finding F18; silence proves nothing.
+//
+//	haveWALWriter     written at executor/wal.go:722,765 (SyncWAL), read at wal.go:788 (RequestFlush)
+//	*shutdownPending  written at wal.go:804 (Shutdown), read at wal.go:730 (SyncWAL)
+//	catalog maps      (*Directory).datafile / subDirs: a writer that rolls a bucket over into new years (AddFile inserts
+//	                  into datafile) while readers query the same bucket and look up its latest year file
+//
+// Search only: silence proves nothing; a report names the two racing stacks.
 package main
 
 import (
 	"fmt"
 	"os"
 	"sync"
+	"sync/atomic"
 	"time"
+
+	"github.com/alpacahq/marketstore/v4/utils/io"
 
 	"verifharness/internal/schedx"
 )
@@ -38,6 +45,30 @@ func main() {
 		}(w)
 	}
 	wg.Wait()
+	// year rollover of bucket W0 against readers of the same bucket's catalog entry
+	stop := int32(0)
+	var rg sync.WaitGroup
+	for g := 0; g < 3; g++ {
+		rg.Add(1)
+		go func(g int) {
+			defer rg.Done()
+			defer func() { recover() }()
+			tbk := io.NewTimeBucketKey(schedx.Key(0))
+			for atomic.LoadInt32(&stop) == 0 {
+				if g == 0 {
+					_, _ = in.Cat.GetLatestTimeBucketInfoFromKey(tbk)
+				} else {
+					_, _ = in.QueryYears(0, 2019, 2032)
+				}
+			}
+		}(g)
+	}
+	for y := 2021; y <= 2028; y++ {
+		_ = in.W.WriteCSM(schedx.CSMYear(0, y), false)
+		time.Sleep(2 * time.Millisecond)
+	}
+	atomic.StoreInt32(&stop, 1)
+	rg.Wait()
 	done := make(chan struct{})
 	go func() { in.WAL.Shutdown(); close(done) }()
 	select {
